@@ -12,6 +12,7 @@ import numpy as np
 import pyerrors as pe
 
 from harness import gen
+from harness.frames import snap, frame_event
 from harness.jsonsafe import rat, ratx
 
 RULE = ('cases = (operation x shape 1..4 x real/complex x layout class x plain-number entries x number of factors); non-trivial = matrix of '
@@ -154,12 +155,19 @@ def cases_for(rng, n, ctx):
         m = int(rng.integers(1, 5))
         cid = 'mat-%04d-%s-%d' % (i, op, m)
         plain = float(rng.choice([0.0, 0.0, 0.3]))
+
+        def framed(args, f, cid=cid):
+            before = snap(args)
+            out = _call(f)
+            if i % 2 == 0:
+                cases.append(frame_event(cid + '-frame', 'the matrices handed to a matrix operation are left as they were', before, args))
+            return out
         if op in ('matmul', 'at'):
             nf = int(rng.integers(2, 5))
             dims = [int(rng.integers(1, 5)) for _ in range(nf + 1)] if op == 'at' else [m] * (nf + 1)   # linalg.matmul: square factors of one size
             mats = [obs_matrix(rng, pool, values_matrix(rng, dims[k], dims[k + 1]), plain_frac=plain if op == 'at' else 0.0) for k in range(nf)]
             if op == 'matmul':
-                r = _call(lambda: pe.linalg.matmul(*mats))
+                r = framed([mats], lambda: pe.linalg.matmul(*mats))
             else:
                 def chain():
                     x = mats[0]
@@ -187,24 +195,24 @@ def cases_for(rng, n, ctx):
                         mats[k][a, b] = complex(float(np.round(rng.uniform(0.5, 1.5), 2)), float(np.round(rng.uniform(-1, 1), 2))) if rng.random() < 0.6 else 0.75
                 if all(not isinstance(x[0, 0], pe.CObs) for x in mats):
                     mats[(k + 1) % nf] = cobs_matrix(rng, pool, values_matrix(rng, m), values_matrix(rng, m))
-            r = _call(lambda: pe.linalg.matmul(*mats))
+            r = framed([mats], lambda: pe.linalg.matmul(*mats))
             res = {'k': 'exc', 't': type(r).__name__} if isinstance(r, Exception) else {'k': 'ok', 'm': pcm(r, pool)}
             cases.append({'id': cid + ['', '-realfactor', '-plainentries'][mixed], 'ev': 'matmul', 'complex': True, 'ops': [pcm(x, pool) for x in mats], 'res': res})
         elif op == 'inv':
             A = obs_matrix(rng, pool, values_matrix(rng, m), plain_frac=0.0)
-            r = _call(lambda: pe.linalg.inv(A))
+            r = framed([A], lambda: pe.linalg.inv(A))
             res = {'k': 'exc', 't': type(r).__name__} if isinstance(r, Exception) else {'k': 'ok', 'm': pm(r, pool)}
             cases.append({'id': cid, 'ev': 'inv', 'complex': False, 'a': pm(A, pool), 'res': res})
         elif op == 'cinv':
             m = min(m, 3)
             vr = values_matrix(rng, m)
             A = cobs_matrix(rng, pool, vr, 0.3 * values_matrix(rng, m))
-            r = _call(lambda: pe.linalg.inv(A))
+            r = framed([A], lambda: pe.linalg.inv(A))
             res = {'k': 'exc', 't': type(r).__name__} if isinstance(r, Exception) else {'k': 'ok', 'm': pcm(r, pool)}
             cases.append({'id': cid, 'ev': 'inv', 'complex': True, 'a': pcm(A, pool), 'res': res})
         elif op == 'cholesky':
             A = obs_matrix(rng, pool, values_matrix(rng, m, kind='spd'), symmetric=True)
-            r = _call(lambda: pe.linalg.cholesky(A))
+            r = framed([A], lambda: pe.linalg.cholesky(A))
             res = {'k': 'exc', 't': type(r).__name__} if isinstance(r, Exception) else {'k': 'ok', 'm': pm(r, pool)}
             cases.append({'id': cid, 'ev': 'cholesky', 'a': pm(A, pool), 'res': res})
         elif op == 'det':
@@ -216,29 +224,29 @@ def cases_for(rng, n, ctx):
                 vals_[a_, b_] = 0.0
                 if isinstance(A[a_, b_], pe.Obs) and m >= 2 and np.linalg.cond(vals_) < 1e3:        # the matrix stays well-conditioned
                     A[a_, b_] = A[a_, b_] - A[a_, b_].value
-            r = _call(lambda: pe.linalg.det(A))
+            r = framed([A], lambda: pe.linalg.det(A))
             res = {'k': 'exc', 't': type(r).__name__} if isinstance(r, Exception) else {'k': 'ok', 's': flat(r, pool)}
             cases.append({'id': cid, 'ev': 'det', 'a': pm(A, pool), 'res': res})
         elif op in ('eigh', 'eig', 'eigv'):
             A = obs_matrix(rng, pool, values_matrix(rng, m, kind='sym'), symmetric=True)
             if op == 'eigh':
-                r = _call(lambda: pe.linalg.eigh(A))
+                r = framed([A], lambda: pe.linalg.eigh(A))
                 res = {'k': 'exc', 't': type(r).__name__} if isinstance(r, Exception) else {'k': 'ok', 'w': [flat(x, pool) for x in r[0]], 'v': pm(r[1], pool)}
             elif op == 'eig':
-                r = _call(lambda: pe.linalg.eig(A))
+                r = framed([A], lambda: pe.linalg.eig(A))
                 res = {'k': 'exc', 't': type(r).__name__} if isinstance(r, Exception) else {'k': 'ok', 'w': [flat(x, pool) for x in r]}
             else:
-                r = _call(lambda: pe.linalg.eigv(A))
+                r = framed([A], lambda: pe.linalg.eigv(A))
                 res = {'k': 'exc', 't': type(r).__name__} if isinstance(r, Exception) else {'k': 'ok', 'v': pm(r, pool)}
             cases.append({'id': cid, 'ev': op, 'a': pm(A, pool), 'res': res})
         elif op in ('pinv', 'svd'):
             n2 = int(rng.integers(1, 5))
             A = obs_matrix(rng, pool, values_matrix(rng, m, n2))
             if op == 'pinv':
-                r = _call(lambda: pe.linalg.pinv(A))
+                r = framed([A], lambda: pe.linalg.pinv(A))
                 res = {'k': 'exc', 't': type(r).__name__} if isinstance(r, Exception) else {'k': 'ok', 'm': pm(r, pool)}
             else:
-                r = _call(lambda: pe.linalg.svd(A))
+                r = framed([A], lambda: pe.linalg.svd(A))
                 res = {'k': 'exc', 't': type(r).__name__} if isinstance(r, Exception) else \
                     {'k': 'ok', 'u': pm(r[0], pool), 's': [flat(x, pool) for x in r[1]], 'vh': pm(r[2], pool)}
             cases.append({'id': cid + 'x%d' % n2, 'ev': op, 'a': pm(A, pool), 'res': res})
@@ -248,11 +256,11 @@ def cases_for(rng, n, ctx):
             nf = int(rng.integers(2, 4))
             mats = [obs_matrix(rng, pool, values_matrix(rng, m)) for _ in range(nf)]
             if op == 'jack':
-                r = _call(lambda: pe.linalg.jack_matmul(*mats))
+                r = framed([mats], lambda: pe.linalg.jack_matmul(*mats))
                 what = 'jack_matmul'
             else:
                 sub = {2: 'ij,jk->ik', 3: 'ij,jk,kl->il'}[nf]
-                r = _call(lambda: pe.linalg.einsum(sub, *mats))
+                r = framed([mats], lambda: pe.linalg.einsum(sub, *mats))
                 what = 'einsum ' + sub
             res = {'k': 'exc', 't': type(r).__name__} if isinstance(r, Exception) else {'k': 'ok', 'm': pm(r, pool)}
             cases.append({'id': cid + '-f%d-N%d' % (nf, N), 'ev': 'jack', 'what': what, 'N': N, 'ops': [pm(x, pool) for x in mats], 'res': res})
